@@ -13,8 +13,11 @@
   `NumCtx.py` inside the magnitude range `InRange`, identity outside), hence for the Decimal arithmetic of the code:
   withdraw-all after any number of bars returns `a·I/I₀` within 2·10⁻³⁴ relative (≪ the 10⁻¹⁸ of the property), and —
   under the explicit magnitude bound `a/I₀ ≤ 10¹⁵` scaled units — the position disappears (`C10_roundtrip_pyG`).
+  The debt side has the same three roundings (borrow: `rnd(0 + rnd(a/I₀))`, `get_borrow(...).amount = rnd(base·I)`, what
+  `repay(None)` takes from the wallet, `sub_base_amount`): `C10_debt_roundtrip_robust`, `C10_debt_roundtrip_pyG`.
 -/
 import Proofs.C10.Accrual
+import Proofs.C10.Debt
 import Proofs.Numerics
 import Mathlib.Tactic.Positivity
 namespace Demeter
@@ -203,6 +206,104 @@ theorem C10_roundtrip_pyG {env0 env : Env} {s0 s1 s3 : St} {tok : String} {a : R
       exact mul_le_mul_of_nonneg_right hsmall (by positivity)
     linarith
 
+/-! ### the debt side: borrow, untouched history, full repayment -/
+
+/-- **ε-robust accrual round trip on the debt side** (any arithmetic context with relative rounding error ≤ ε ≤ 1/2): borrow
+    `a` of a token not yet borrowed in a bar with variable borrow index `I₀`; then ANY history of bars and operations that
+    does not target this debt (other tokens, supplies, withdrawals, reads, bar changes; accepted or rejected); then
+    `repay(token)` (`payback_amount=None`, cash) in a bar with index `I`.  The wallet is debited by `x`
+    (`subtract_from_balance(x)`), `|x − a·I/I₀| ≤ ((1+ε)³ − 1)·a·I/I₀`, and what is left of the scaled debt before the dust
+    rule is at most `3ε(1+ε)²·a/I₀` — so the debt entry is deleted as soon as that is below MIN_TOKEN_VALUE. -/
+theorem C10_debt_roundtrip_robust {cx : ACtx} {ε : Rat} (hR : RndOK cx.toNumCtx ε) (hε : 0 ≤ ε) (hε1 : ε ≤ 1 / 2)
+    {env0 env : Env} {s0 s1 s3 : St} {tok : String} {a : Rat} {c : Option String}
+    (hI0 : AavePosIdx env0) (hI : AavePosIdx env)
+    (hnew : AList.get? s0.borrows tok = none)
+    (hbor : borrow cx env0 tok (some a) s0 = (.ok (), s1))
+    (hist : List (Env × Op)) (hun : ∀ p ∈ hist, ¬ TouchesBorrow tok p.2)
+    (hgood : Good cx env (runHist cx s1 hist))
+    (hr : repay cx env tok none false c (runHist cx s1 hist) = (.ok (), s3)) :
+    ∃ st0 st x, env0.statusOf tok = .ok st0 ∧ env.statusOf tok = .ok st ∧
+      Wallet.debit cx.toNumCtx (runHist cx s1 hist).wallet tok x false = .ok s3.wallet ∧
+      a * st.varIdx / st0.varIdx * (1 - ε) ^ 3 ≤ x ∧ x ≤ a * st.varIdx / st0.varIdx * (1 + ε) ^ 3 ∧
+      (3 * ε * (a / st0.varIdx * (1 + ε) ^ 2) < Gen.aaveMinTokenValue → AList.get? s3.borrows tok = none) := by
+  obtain ⟨a', st0, _, hapos, ha, hst0, _, hcore⟩ := borrow_inv hbor
+  have := ha a rfl; subst this
+  have hI0pos := (hI0 tok st0 hst0).2
+  have hs1 : AList.get? s1.borrows tok = some ⟨cx.add 0 (cx.div a' st0.varIdx), st0.varIdx⟩ := by
+    have : s1.borrows = _ := congrArg Core.borrows hcore
+    rw [this, hnew]
+    exact aget_set_self _ _ _
+  have hs2 := C10_debt_untouched_hist (cx := cx) (tok := tok) hist s1 hun
+  rw [hs1] at hs2
+  obtain ⟨st, info, payback, nb, _, hst, _, hg, hpay, _, hnb, hcash, _⟩ := repay_inv hgood hr
+  rw [hs2] at hg
+  cases hg
+  obtain ⟨w', hw, hcore3⟩ := hcash rfl
+  have hamt := hpay rfl
+  simp only [Option.getD_none] at hamt
+  have hIpos := (hI tok st hst).2
+  obtain ⟨bl, bh, xl, xh⟩ := roundtrip_amount hR hε (by linarith) (le_of_lt hapos) hI0pos hIpos
+  have hw3 : s3.wallet = w' := congrArg Core.wallet hcore3
+  refine ⟨st0, st, payback, hst0, hst, by rw [hw3]; exact hw, by rw [hamt]; exact xl, by rw [hamt]; exact xh, ?_⟩
+  intro hsmall
+  have hb0 : 0 ≤ cx.add 0 (cx.div a' st0.varIdx) :=
+    le_trans (mul_nonneg (div_nonneg hapos.le hI0pos.le) (by positivity)) bl
+  have hleft := roundtrip_left hR hε hε1 hb0 hIpos
+  have hnb0 : nb = 0 := by
+    rw [hnb, hamt]
+    unfold subBase
+    rw [if_pos]
+    calc cx.sub (cx.add 0 (cx.div a' st0.varIdx)) (cx.div (cx.mul (cx.add 0 (cx.div a' st0.varIdx)) st.varIdx) st.varIdx)
+        ≤ 3 * ε * cx.add 0 (cx.div a' st0.varIdx) := hleft
+      _ ≤ 3 * ε * (a' / st0.varIdx * (1 + ε) ^ 2) := mul_le_mul_of_nonneg_left bh (by positivity)
+      _ < Gen.aaveMinTokenValue := hsmall
+  have : s3.borrows = _ := congrArg Core.borrows hcore3
+  rw [this, hnb0]
+  unfold borAfterSub
+  rw [if_pos rfl]
+  exact aget_erase_self' _ _
+
+/-- **the debt round trip under CPython's 35-digit Decimal arithmetic** (`NumCtx.pyG`, ε = 5·10⁻³⁵): the amount a full
+    repayment takes from the wallet after any untouched history is `a·I/I₀` within 10⁻¹⁸ relative (in fact 2·10⁻³⁴), and for
+    debts up to 10¹⁵ scaled units the entry disappears. -/
+theorem C10_debt_roundtrip_pyG {env0 env : Env} {s0 s1 s3 : St} {tok : String} {a : Rat} {c : Option String}
+    (hI0 : AavePosIdx env0) (hI : AavePosIdx env)
+    (hnew : AList.get? s0.borrows tok = none)
+    (hbor : borrow aavePyG env0 tok (some a) s0 = (.ok (), s1))
+    (hist : List (Env × Op)) (hun : ∀ p ∈ hist, ¬ TouchesBorrow tok p.2)
+    (hgood : Good aavePyG env (runHist aavePyG s1 hist))
+    (hr : repay aavePyG env tok none false c (runHist aavePyG s1 hist) = (.ok (), s3)) :
+    ∃ st0 st x, env0.statusOf tok = .ok st0 ∧ env.statusOf tok = .ok st ∧
+      Wallet.debit NumCtx.pyG (runHist aavePyG s1 hist).wallet tok x false = .ok s3.wallet ∧
+      |x - a * st.varIdx / st0.varIdx| ≤ 1 / 10 ^ 18 * (a * st.varIdx / st0.varIdx) ∧
+      (a / st0.varIdx ≤ 10 ^ 15 → AList.get? s3.borrows tok = none) := by
+  have hε0 : (0:ℚ) ≤ EPS35 := EPS35_pos.le
+  have hε1 : EPS35 ≤ 1 / 2 := le_trans EPS35_small (by norm_num)
+  obtain ⟨st0, st, x, h1, h2, h3, xl, xh, hdel⟩ :=
+    C10_debt_roundtrip_robust aave_pyG_rndOK hε0 hε1 hI0 hI hnew hbor hist hun hgood hr
+  obtain ⟨a', st0', _, hapos, ha, hst0, _⟩ := borrow_inv hbor
+  have := ha a rfl; subst this
+  rw [h1] at hst0; cases hst0
+  have hI0pos := (hI0 tok st0 h1).2
+  have hIpos := (hI tok st h2).2
+  have ht : 0 ≤ a' * st.varIdx / st0.varIdx := div_nonneg (mul_nonneg hapos.le hIpos.le) hI0pos.le
+  refine ⟨st0, st, x, h1, h2, h3, ?_, ?_⟩
+  · have e3l : (1:ℚ) - 1 / 10 ^ 18 ≤ (1 - EPS35) ^ 3 := by unfold EPS35; norm_num
+    have e3h : (1 + EPS35) ^ 3 ≤ (1:ℚ) + 1 / 10 ^ 18 := by unfold EPS35; norm_num
+    rw [abs_le]
+    constructor
+    · nlinarith [mul_le_mul_of_nonneg_left e3l ht]
+    · nlinarith [mul_le_mul_of_nonneg_left e3h ht]
+  · intro hsmall
+    apply hdel
+    have hq : 0 ≤ a' / st0.varIdx := div_nonneg hapos.le hI0pos.le
+    have e2 : 3 * EPS35 * ((10:ℚ) ^ 15 * (1 + EPS35) ^ 2) < Gen.aaveMinTokenValue := by
+      unfold EPS35 Gen.aaveMinTokenValue; norm_num
+    have : 3 * EPS35 * (a' / st0.varIdx * (1 + EPS35) ^ 2) ≤ 3 * EPS35 * ((10:ℚ) ^ 15 * (1 + EPS35) ^ 2) := by
+      apply mul_le_mul_of_nonneg_left _ (by positivity)
+      exact mul_le_mul_of_nonneg_right hsmall (by positivity)
+    linarith
+
 /-! ### non-vacuity: the ε-hypothesis is inhabited, and the bound is what CPython's arithmetic does on a concrete case -/
 
 example : RndOK aavePyG.toNumCtx (5 / 10 ^ 35) := aave_pyG_rndOK
@@ -210,5 +311,8 @@ example : RndOK aavePyG.toNumCtx (5 / 10 ^ 35) := aave_pyG_rndOK
 /-- 1000 tokens supplied at index 1.1, read at index 1.21: CPython prints 1100.0000000000000000000000000000000 for
     `Decimal(1000)/Decimal('1.1')*Decimal('1.21')`, the exact value is 1100 -/
 example : NumCtx.py.mul (NumCtx.py.add 0 (NumCtx.py.div 1000 (11/10))) (121/100) = 1100 := by decide +kernel
+
+/-- 5000 tokens borrowed at borrow index 1.25, repaid in full at index 1.5: the exact value 6000 -/
+example : NumCtx.py.mul (NumCtx.py.add 0 (NumCtx.py.div 5000 (5/4))) (3/2) = 6000 := by decide +kernel
 
 end Demeter
